@@ -3,7 +3,7 @@
    The obligations are spread over C13_props*.v so that Print Assumptions runs in parallel. *)
 From Coq Require Import ZArith List Reals.
 From Flocq Require Import Raux Generic_fmt.
-From P Require Import C13_gen C13_model C13_proofs_weights.
+From P Require Import C13_gen C13_model C13_proofs_weights C13_proofs_f1c.
 Import ListNotations.
 
 (* ------------------------------------------------------------------ (3) weight schemes *)
@@ -25,3 +25,12 @@ Theorem weights_length : forall s a0 a1 a2 n0 n1 n2, (0 <= n0)%Z -> (0 <= n1)%Z 
   forall b0 b1, Z.of_nat (length (weights2 ROps s b0 b1 n0 n1)) = (n0 * n1)%Z.
 Proof. exact weights_length_lemma. Qed.
 Print Assumptions weights_length.
+
+(* Fourier1, all shapes: sum(weights)/volume is the product over the directions of a closed-form single sum
+   (f1s_closed n = 2/(n+1) sum_{p=1..n} (1-cos p pi)/(p pi) (cos(t/2) - cos((n+1/2)t)) / (2 sin(t/2)), t = p pi/(n+1));
+   the numerical bound on that factor is the partial theorem in C13_props_f1a.v / C13_props_f1b.v *)
+Theorem fourier1_sum_factorises : forall vol n0 n1 n2, (1 <= n0)%Z -> (1 <= n1)%Z -> (1 <= n2)%Z -> vol <> 0%R ->
+  (sumR (fourier1_weights3 vol n0 n1 n2) / vol = f1s_closed n0 * f1s_closed n1 * f1s_closed n2 /\
+   sumR (fourier1_weights2 vol n0 n1) / vol = f1s_closed n0 * f1s_closed n1)%R.
+Proof. exact fourier1_sum_factorises_lemma. Qed.
+Print Assumptions fourier1_sum_factorises.
